@@ -235,7 +235,7 @@ def check_group(group, ctx):
 def run_shard(ctx):
     triggers = {t: (sig not in ctx.known_sigs) for t, sig in TRIGGER_SIGS.items()}
     prof = PROFILE_THOROUGH if ctx.thorough else PROFILE
-    ctx.given(cases(prof, triggers, first=ctx.shard, salt=ctx.seed), check_group, ctx.scale(100, 2400), shrink=False)
+    ctx.given(cases(prof, triggers, first=ctx.shard, salt=ctx.seed), check_group, ctx.scale(100, 2400), shrink=ctx.thorough)
 
 
 def replay(case, ctx):
